@@ -13,6 +13,11 @@
 //   shw <k>            client k half-closes (shutdown SHUT_WR); server gets Readable (recv == 0)
 //   rst <k>            client k aborts (SO_LINGER 0 -> RST); server gets Readable (recv error)
 //   hup <k>            the server gets an Error event for k (EPOLLERR/EPOLLHUP path)
+//   accs <k>           like acc, but with tiny socket buffers (client SO_RCVBUF, relay-side SO_SNDBUF = 4096) so that
+//                      the relay's send() towards k returns short counts as soon as k is not being drained
+//   stall <k>          client k stops reading: the relay still gets Writable events for k (handle_write is called
+//                      once per flush round) but nothing is read from k's socket, so the socket buffers fill up
+//   resume <k>         client k reads again: everything the relay managed to send meanwhile, then drain as usual
 //   nop                nothing (just the observation line)
 // After every op all pending server output is flushed (Writable events until every write buffer
 // is empty) and read back through the client sockets.
@@ -54,6 +59,8 @@ struct Client {
     bool seen_closed{false};                           // the client observed the server closing
     std::weak_ptr<RelayServer::ClientSession> session;  // never extends the session's lifetime
     std::string rx;                                    // bytes received during the current op
+    bool stalled{false};                               // not reading (back-pressure on the relay)
+    std::size_t owed{0};                               // bytes the relay reports as sent while k was stalled
 };
 
 std::unique_ptr<EventLoop> loop;
@@ -119,22 +126,27 @@ void read_exact(Client& c, std::size_t n) {
     }
 }
 
-// Writable events until every server write buffer is empty; everything sent is read back.
+// Writable events until every server write buffer is empty; everything sent is read back.  A stalled client gets one
+// handle_write per call (the relay tries, the kernel takes what fits, then EAGAIN) and is not read.
 void pump() {
     int idle_rounds = 0;
     bool again = true;
+    bool first = true;
     while (again && idle_rounds < 50) {
         again = false;
         for (auto& [k, c] : clients) {
             auto s = live_session(c);
             if (!s || s->write_buffer.empty()) continue;
+            if (c.stalled && !first) continue;
             const auto before = s->write_buffer.size();
             server->on_client_event(s, EventLoop::kEventWritable);
             const auto after = s->write_buffer.size();
             const auto sent = before >= after ? before - after : 0;
+            if (c.stalled) { c.owed += sent; continue; }
             if (sent > 0) { read_exact(c, sent); idle_rounds = 0; } else { ++idle_rounds; }
             if (live_session(c) && !s->write_buffer.empty()) again = true;
         }
+        first = false;
     }
 }
 
@@ -147,7 +159,10 @@ void observe_closures() {
         for (int spins = 0; spins < 1000; ++spins) {
             if (!wait_readable(c.fd)) break;
             const auto got = ::recv(c.fd, buf, sizeof buf, 0);
-            if (got > 0) { c.rx.append(buf, static_cast<std::size_t>(got)); continue; }  // unexpected stray bytes: reported
+            if (got > 0) {
+                if (!c.stalled) c.rx.append(buf, static_cast<std::size_t>(got));  // unexpected stray bytes: reported
+                continue;  // (a stalled client never looked at what was sent before the closure)
+            }
             c.seen_closed = true;  // 0 (FIN) or error (reset)
             break;
         }
@@ -271,12 +286,15 @@ std::string do_op(const std::vector<std::string>& t) {
     if (t.size() < 2) return "bad-op";
     int k = 0;
     try { k = std::stoi(t[1]); } catch (...) { return "bad-op"; }
-    if (t[0] == "acc" && t.size() == 2) {
+    if ((t[0] == "acc" || t[0] == "accs") && t.size() == 2) {
         if (clients.count(k)) return finish_op();  // index already used: ignored
         Client c;
         c.fd = ::socket(AF_INET, SOCK_STREAM, 0);
         int one = 1;
         ::setsockopt(c.fd, IPPROTO_TCP, TCP_NODELAY, &one, sizeof one);
+        const bool small = t[0] == "accs";
+        int tiny = 4096;
+        if (small) ::setsockopt(c.fd, SOL_SOCKET, SO_RCVBUF, &tiny, sizeof tiny);
         sockaddr_in addr{};
         addr.sin_family = AF_INET;
         addr.sin_port = htons(port);
@@ -287,7 +305,10 @@ std::string do_op(const std::vector<std::string>& t) {
         for (auto& e : server->sessions_) had.push_back(e.second.get());
         server->accept_new_clients();
         for (auto& e : server->sessions_) {
-            if (std::find(had.begin(), had.end(), e.second.get()) == had.end()) c.session = e.second;
+            if (std::find(had.begin(), had.end(), e.second.get()) == had.end()) {
+                c.session = e.second;
+                if (small) ::setsockopt(e.second->fd, SOL_SOCKET, SO_SNDBUF, &tiny, sizeof tiny);
+            }
         }
         clients.emplace(k, std::move(c));
         return finish_op();
@@ -336,6 +357,15 @@ std::string do_op(const std::vector<std::string>& t) {
             pollfd p{s->fd, POLLIN, 0};
             ::poll(&p, 1, kWaitMs);
             server->on_client_event(s, EventLoop::kEventReadable);
+        }
+        return finish_op();
+    }
+    if (t[0] == "stall") { c.stalled = true; return finish_op(); }
+    if (t[0] == "resume") {
+        if (c.stalled) {
+            c.stalled = false;
+            if (c.fd >= 0) read_exact(c, c.owed);
+            c.owed = 0;
         }
         return finish_op();
     }
